@@ -272,6 +272,16 @@ func genC35(g *gen) {
 			return true
 		})
 	}
+	// String(): a single return (no path around Redacted)
+	stringReturns := 0
+	if fd := findFunc(f, "Config", "String"); fd != nil && fd.Body != nil {
+		ast.Inspect(fd.Body, func(n ast.Node) bool {
+			if _, ok := n.(*ast.ReturnStmt); ok {
+				stringReturns++
+			}
+			return true
+		})
+	}
 	// redact(): `if *s != "" { *s = redactedValue }`
 	placeholder, _ := strLit(constExpr(f, "redactedValue"))
 	redactShape := false
@@ -305,6 +315,7 @@ func genC35(g *gen) {
 	g.line("Definition gen_fallback_copy : string := %s.", coqString(fallbackCall))
 	g.line("Definition gen_fallback_cloned_slices : list (list string) := %s.", coqStrListList(cloned))
 	g.line("Definition gen_string_renders_redacted_copy : bool := %s.", coqBool(stringUsesRedacted))
+	g.line("Definition gen_string_return_statements : N := %d.", stringReturns)
 	g.line("Definition gen_placeholder : string := %s.", coqString(placeholder))
 	g.line("Definition gen_redact_only_nonempty : bool := %s.", coqBool(redactShape))
 }
